@@ -232,6 +232,9 @@ class World:
 
     def ev_CreateApp(self, a, p):
         prof = dict(self.scn['aprofiles'][p - 1])
+        if not hasattr(self, 'profile_of'):
+            self.profile_of = {}
+        self.profile_of[a] = dict(prof)
         name = prof.pop('name')
         if 'demand' in prof:
             sp_spell, doc = spell(prof.pop('demand'), self.rng)
@@ -351,7 +354,41 @@ class World:
             out[a] = label
         return out
 
+    def decl_apps(self):
+        """What each scheduled instance DECLARES in its manifest, restated
+        independently of loader.load_app from the profile the harness submitted:
+        retention / lease in seconds (s, m, h, d suffixes), schedule-once,
+        identity group, affinity and its limits, whether it is blacklisted by the
+        patterns in force.  (Demand, priority and partition have observers of
+        their own: spells, oprio, declared.)"""
+        import fnmatch
+        scale = {'s': 1, 'm': 60, 'h': 3600, 'd': 86400}
+
+        def secs(v, dflt):
+            if v is None:
+                return dflt
+            v = str(v).strip().lower()
+            return int(v[:-1]) * scale[v[-1]]
+        out = {}
+        for a, inst in self.names.items():
+            if z.path.scheduled(inst) not in self.store.nodes:
+                continue
+            prof = self.profile_of.get(a)
+            if prof is None:
+                continue
+            base = inst.split('#')[0]
+            out[a] = dict(
+                retention=secs(prof.get('data_retention_timeout'), -1),
+                lease=secs(prof.get('lease'), 0),
+                once=bool(prof.get('schedule_once')),
+                group=prof.get('identity_group') or '',
+                aff=prof.get('affinity') or '',
+                limits={k: int(v) for k, v in (prof.get('affinity_limits') or {}).items()},
+                blacklisted=any(fnmatch.fnmatch(base, pat) for pat in getattr(self, 'blackpats', [])))
+        return out
+
     def ev_Blacklist(self, patterns):
+        self.blackpats = list(patterns)
         zkutils.put(self.admin, z.BLACKEDOUT_APPS, list(patterns))
         masterapi.create_event(self.admin, 0, 'apps_blacklist', None)
 
@@ -577,6 +614,7 @@ def replay(scn, history):
                     quiet = all(p[1] == p[3] and p[2] == p[4] for p in w.placement)
                     line['declared'] = w.declared()
                     line['oprio'] = w.oprio()
+                    line['decl_apps'] = w.decl_apps()
                     line['queues'] = w.queues
                     line['placement'] = [[w.aname(n), b or '', rels(eb), a or '', rels(ea)]
                                          for n, b, eb, a, ea in w.placement]
@@ -591,6 +629,7 @@ def replay(scn, history):
                     line['loaded_sched'] = w.loaded_sched
                     line['declared'] = w.declared()
                     line['oprio'] = w.oprio()
+                    line['decl_apps'] = w.decl_apps()
                     line['queues'] = w.init_queues
                     line['placement'] = [[w.aname(n), b or '', rels(eb), a or '', rels(ea)]
                                          for n, b, eb, a, ea in w.init_placement]
@@ -624,7 +663,8 @@ def sched_segments(tid, lines):
             cur = [dict(ev='Init', args=[], h=k, post=l['loaded_sched']),
                    dict(ev='Cycle', args=[], h=k, post=l['post'], spells=l.get('spells', {}),
                         queues=l['queues'], placement=l['placement'],
-                        declared=l.get('declared', {}), oprio=l.get('oprio', {}))]
+                        declared=l.get('declared', {}), oprio=l.get('oprio', {}),
+                        decl_apps=l.get('decl_apps', {}))]
             continue
         if not cur:
             cur.append(dict(ev='Init', args=[], h=k, post=l['post']))
@@ -638,6 +678,7 @@ def sched_segments(tid, lines):
             line['placement'] = l['placement']
             line['declared'] = l.get('declared', {})
             line['oprio'] = l.get('oprio', {})
+            line['decl_apps'] = l.get('decl_apps', {})
             if 'probe' in l:
                 line['probe'] = l['probe']
                 line['quiet'] = l['quiet']
